@@ -442,6 +442,37 @@ Kill ==
 
 Outcomes == OutcomeSet
 
+(* BatchError is an optional remainder; the receiver only ever looks at that option, so the
+   processor may build the same abstract outcome through any of the type's combinators.  The
+   harness rotates through ErrForms when it constructs the error for an AttemptEnd; the ASSUME
+   (checked by TLC for the remainders of a small alphabet) says that they all denote the same
+   option: retry(_, r) = Some(r), no_retry(_) = None, map_retryable(f) applies f to the option,
+   try_into_retryable gives the remainder back or the error unchanged. *)
+None_ == <<"none">>
+Some_(r) == <<"some", r>>
+BE_NoRetry == None_
+BE_Retry(r) == Some_(r)
+BE_MapRetryable(be, F(_)) == F(be)
+BE_TryIntoRetryable(be) == IF be = None_ THEN <<"err", None_>> ELSE <<"ok", be[2]>>
+ErrForms == {"direct", "mapNoneToSome", "mapSomeToSome", "mapSomeToNone", "mapIdentity", "tryIntoRoundTrip"}
+ConstSome(r, be) == Some_(r)      \* |_| Some(r)
+ConstNone(be) == None_            \* |_| None
+Identity(be) == be
+BE_Build(form, want) ==     \* want: None_ or Some_(r)
+    CASE form = "direct" -> IF want = None_ THEN BE_NoRetry ELSE BE_Retry(want[2])
+      [] form = "mapNoneToSome" -> IF want = None_ THEN BE_NoRetry
+                                   ELSE BE_MapRetryable(BE_NoRetry, LAMBDA be : ConstSome(want[2], be))
+      [] form = "mapSomeToSome" -> IF want = None_ THEN BE_NoRetry
+                                   ELSE BE_MapRetryable(BE_Retry(<<>>), LAMBDA be : ConstSome(want[2], be))
+      [] form = "mapSomeToNone" -> IF want = None_ THEN BE_MapRetryable(BE_Retry(<<>>), ConstNone)
+                                   ELSE BE_Retry(want[2])
+      [] form = "mapIdentity" -> BE_MapRetryable(IF want = None_ THEN BE_NoRetry ELSE BE_Retry(want[2]), Identity)
+      [] form = "tryIntoRoundTrip" ->
+            LET t == BE_TryIntoRetryable(IF want = None_ THEN BE_NoRetry ELSE BE_Retry(want[2]))
+            IN IF t[1] = "ok" THEN BE_Retry(t[2]) ELSE t[2]
+ASSUME \A form \in ErrForms : \A want \in {None_, Some_(<<>>), Some_(<<1>>), Some_(<<1, 2>>)} :
+          BE_Build(form, want) = want
+
 RecvNext ==
     \/ RecvTake \/ IdleWake \/ RetryWake \/ CbReturn
     \/ \E o \in Outcomes : \E r \in (IF o = "retry" THEN Remainders(cur) ELSE {<<>>}) :
